@@ -710,6 +710,10 @@ pub fn gen_c04(cx: &mut Ctx) {
         for y in idiom_exprs().into_iter().step_by(7) {
             emit_cmp(cx, &Val::E(x.clone()), &Val::E(y), true, 0);
         }
+        // a function and the Not node of the very same tree, both ways
+        emit_cmp(cx, &Val::E(x.clone()), &Val::E(not(x.clone())), true, 0);
+        emit_cmp(cx, &Val::E(not(x.clone())), &Val::E(x.clone()), true, 0);
+        emit_cmp(cx, &Val::E(not(not(x.clone()))), &Val::E(x.clone()), true, 0);
     }
     let pool = pool_names();
     for _ in 0..cx.scale * if cx.thorough { 100000 } else { 3000 } {
@@ -853,6 +857,64 @@ pub fn idiom_exprs() -> Vec<E> {
         // a negated node whose operands disagree on a variable
         out.push(not(and(vec![or(xs.clone()), or(neg_all(xs))])));
         out.push(and(vec![d.clone(), not(and(vec![a.clone(), b.clone(), or(vec![not(a.clone()), c.clone()])]))]));
+    }
+    // the xor outline with a product that only shares a prefix with the sum
+    for xs in &lists {
+        let mut longer = xs.clone();
+        longer.push(d.clone());
+        let shorter: Vec<E> = xs.iter().take(xs.len().saturating_sub(1)).cloned().collect();
+        out.push(and(vec![or(xs.clone()), not(and(longer.clone()))]));
+        out.push(and(vec![or(xs.clone()), not(and(shorter.clone()))]));
+        out.push(and(vec![or(xs.clone()), not(and(vec![]))]));
+        out.push(and(vec![or(longer), not(and(xs.clone()))]));
+    }
+    // operands that are constant without being constants (compound tautologies / contradictions), in
+    // front of, between and behind operands that matter, below zero, one and two negations
+    {
+        let dead: Vec<E> = vec![
+            or(vec![a.clone(), not(a.clone())]),
+            and(vec![a.clone(), not(a.clone())]),
+            or(vec![and(vec![a.clone(), c.clone()]), not(a.clone()), not(c.clone())]),
+            not(or(vec![c.clone(), not(c.clone())])),
+            and(vec![]),
+            or(vec![]),
+        ];
+        for t in &dead {
+            for is_and in [true, false] {
+                let mk = |v: Vec<E>| if is_and { and(v) } else { or(v) };
+                for node in [
+                    mk(vec![t.clone(), b.clone()]),
+                    mk(vec![b.clone(), t.clone()]),
+                    mk(vec![b.clone(), t.clone(), d.clone()]),
+                    mk(vec![t.clone(), b.clone(), not(d.clone())]),
+                ] {
+                    out.push(node.clone());
+                    out.push(not(node.clone()));
+                    out.push(not(not(node.clone())));
+                    out.push(or(vec![d.clone(), not(node)]));
+                }
+            }
+        }
+        // both empty nodes in one expression
+        out.push(and(vec![and(vec![]), not(or(vec![]))]));
+        out.push(or(vec![and(vec![a.clone(), and(vec![])]), and(vec![b.clone(), or(vec![])])]));
+        out.push(and(vec![or(vec![a.clone(), or(vec![])]), or(vec![b.clone(), and(vec![])])]));
+        out.push(or(vec![or(vec![]), and(vec![]), a.clone()]));
+    }
+    // clauses with a nested node of the same connective, the variable in both polarities on different levels
+    {
+        let x = lit("a");
+        for (p, q, r) in [(x.clone(), b.clone(), not(x.clone())), (not(x.clone()), x.clone(), c.clone()), (b.clone(), x.clone(), not(x.clone())), (x.clone(), c.clone(), x.clone())] {
+            for dual in [false, true] {
+                let inner = |v: Vec<E>| if dual { or(v) } else { and(v) };
+                let outer = |v: Vec<E>| if dual { and(v) } else { or(v) };
+                let other = inner(vec![c.clone(), d.clone()]);
+                out.push(outer(vec![inner(vec![inner(vec![p.clone(), q.clone()]), r.clone()]), other.clone()]));
+                out.push(outer(vec![inner(vec![p.clone(), inner(vec![q.clone(), r.clone()])]), other.clone()]));
+                out.push(outer(vec![other.clone(), inner(vec![inner(vec![p.clone()]), inner(vec![q.clone(), r.clone()])])]));
+                out.push(inner(vec![inner(vec![p.clone(), q.clone()]), r.clone()]));
+            }
+        }
     }
     // implication, absorption, multiplexer, consensus, dead branches
     out.push(or(vec![not(a.clone()), b.clone()]));
